@@ -259,7 +259,7 @@ def cbComplete (now : Nat) (rt : Nat) (err0 : Bool) (c : Ctl CbRule CbSt) : Ctl 
 structure FlowRule where
   id : Nat
   res : Nat
-  tcs : Nat          -- TokenCalculateStrategy: 0 Direct, 1 WarmUp
+  tcs : Nat          -- TokenCalculateStrategy: 0 Direct, 1 WarmUp, 2 MemoryAdaptive
   cb : Nat           -- ControlBehavior: 0 Reject, 1 Throttling
   thr : Nat          -- Threshold (integral in this model)
   rel : Nat          -- RelationStrategy
@@ -268,11 +268,16 @@ structure FlowRule where
   period : Nat       -- WarmUpPeriodSec
   cf : Nat           -- WarmUpColdFactor
   statIv : Nat       -- StatIntervalInMs
+  lowMem : Nat       -- LowMemUsageThreshold  (the threshold while memory is below the low water mark)
+  highMem : Nat      -- HighMemUsageThreshold
+  memLow : Nat       -- MemLowWaterMarkBytes
+  memHigh : Nat      -- MemHighWaterMarkBytes
 deriving Repr, DecidableEq
 
 def FlowRule.eq (o n : FlowRule) : Bool :=
   o.res == n.res && o.rel == n.rel && o.ref == n.ref && o.statIv == n.statIv && o.tcs == n.tcs && o.cb == n.cb
     && o.thr == n.thr && o.maxQ == n.maxQ && o.period == n.period && o.cf == n.cf
+    && o.lowMem == n.lowMem && o.highMem == n.highMem && o.memLow == n.memLow && o.memHigh == n.memHigh
 
 def FlowRule.needStat (r : FlowRule) : Bool := r.tcs == 1 || r.cb == 0
 
@@ -282,6 +287,8 @@ def FlowRule.sr (o n : FlowRule) : Bool :=
 /-- `IsValidRule` restricted to what the op language can express -/
 def FlowRule.valid (r : FlowRule) : Bool :=
   r.rel ≤ 1 && !(r.rel == 1 && r.ref == 0) && !(r.tcs == 1 && (r.period == 0 || r.cf == 1))
+    && !(r.tcs == 2 && (r.lowMem == 0 || r.highMem == 0 || r.highMem ≥ r.lowMem || r.memLow == 0 || r.memHigh == 0
+                        || r.memLow ≥ r.memHigh))
 
 /-- the write-back of `NewWarmUpTrafficShapingCalculator` -/
 def FlowRule.norm (r : FlowRule) : FlowRule := if r.tcs = 1 && r.cf ≤ 1 then { r with cf := 3 } else r
@@ -326,6 +333,29 @@ inductive Verdict where
   | block
 deriving Repr, DecidableEq
 
+/-- `MemoryAdaptiveTrafficShapingCalculator.CalculateAllowedTokens` (binary64 as in the code); `mem` is
+    `system_metric.CurrentMemoryUsage()` (−1 = not retrieved) -/
+def adaptiveAllowed (mem : Int) (r : FlowRule) : Float :=
+  if mem = -1 then r.lowMem.toFloat
+  else if mem ≤ r.memLow then r.lowMem.toFloat
+  else if mem ≥ r.memHigh then r.highMem.toFloat
+  else Float.ofInt ((r.highMem : Int) - r.lowMem) / Float.ofInt ((r.memHigh : Int) - r.memLow) * Float.ofInt (mem - r.memLow)
+        + r.lowMem.toFloat
+
+/-- `ThrottlingChecker.DoCheck` (batch 1) with a binary64 threshold (memory-adaptive calculator) -/
+def throttleCheckF (nowMs : Nat) (thr : Float) (c : Ctl FlowRule FlowSt) : Verdict × Ctl FlowRule FlowSt :=
+  if thr ≤ 0.0 then (.block, c) else
+  if 1.0 > thr then (.block, c) else
+  let cur := nowMs * 1000000
+  let statNs : Nat := (if c.rule.statIv = 0 then 1000 else c.rule.statIv) * 1000000
+  let ivl := (Float.ceil (1.0 / thr * statNs.toFloat)).toUInt64.toNat
+  let last := c.st.lastPassed
+  if last + ivl ≤ cur then (.pass, { c with st := { c.st with lastPassed := cur } })
+  else
+    let est := last + ivl - cur
+    if est > c.rule.maxQ * 1000000 then (.block, c)
+    else (.wait est, { c with st := { c.st with lastPassed := last + ivl } })
+
 /-- sequential `ThrottlingChecker.DoCheck` with batch count 1 -/
 def throttleCheck (nowMs : Nat) (c : Ctl FlowRule FlowSt) : Verdict × Ctl FlowRule FlowSt :=
   if c.rule.thr = 0 then (.block, c) else
@@ -368,8 +398,13 @@ def warmUpAllowed (nowMs : Nat) (prevQps : Float) (c : Ctl FlowRule FlowSt) : Fl
 
 /-- `PerformChecking` of one controller.  `sum` / `prevQps` are what its read statistic returns for the pass count of
     the current window and the QPS of the previous one. -/
-def flowCheckOne (nowMs : Nat) (sum : Nat) (prevQps : Float) (c : Ctl FlowRule FlowSt) : Verdict × Ctl FlowRule FlowSt :=
-  if c.rule.tcs = 1 then
+def flowCheckOne (nowMs : Nat) (mem : Int) (sum : Nat) (prevQps : Float) (c : Ctl FlowRule FlowSt) :
+    Verdict × Ctl FlowRule FlowSt :=
+  if c.rule.tcs = 2 then
+    let allowed := adaptiveAllowed mem c.rule
+    if c.rule.cb = 1 then throttleCheckF nowMs allowed c
+    else if sum.toFloat + 1.0 > allowed then (.block, c) else (.pass, c)
+  else if c.rule.tcs = 1 then
     let (allowed, c') := warmUpAllowed nowMs prevQps c
     if sum.toFloat + 1.0 > allowed then (.block, c') else (.pass, c')
   else if c.rule.cb = 1 then throttleCheck nowMs c
@@ -377,14 +412,14 @@ def flowCheckOne (nowMs : Nat) (sum : Nat) (prevQps : Float) (c : Ctl FlowRule F
 
 /-- `flow.Slot.Check`: controllers in order; the first refusal ends the scan, waits add up.
     Result: blocking rule `Id` (if any), total wait (ns), updated controllers. -/
-def flowScan (nowMs : Nat) (rd : Ctl FlowRule FlowSt → Nat × Float) :
+def flowScan (nowMs : Nat) (mem : Int) (rd : Ctl FlowRule FlowSt → Nat × Float) :
     List (Ctl FlowRule FlowSt) → Option Nat × Nat × List (Ctl FlowRule FlowSt)
   | [] => (none, 0, [])
   | c :: cs =>
-    match flowCheckOne nowMs (rd c).1 (rd c).2 c with
+    match flowCheckOne nowMs mem (rd c).1 (rd c).2 c with
     | (.block, c') => (some c.rule.id, 0, c' :: cs)
-    | (.pass, c') => let (b, w, cs') := flowScan nowMs rd cs; (b, w, c' :: cs')
-    | (.wait ns, c') => let (b, w, cs') := flowScan nowMs rd cs; (b, w + ns, c' :: cs')
+    | (.pass, c') => let (b, w, cs') := flowScan nowMs mem rd cs; (b, w, c' :: cs')
+    | (.wait ns, c') => let (b, w, cs') := flowScan nowMs mem rd cs; (b, w + ns, c' :: cs')
 
 /-- what a controller's read statistic returns at `now`: `(GetSum(pass), GetPreviousQPS(pass))`; `node` is the pass
     array of the resource node -/
